@@ -84,7 +84,7 @@ class World:
         sdata: bool = False,
         ledger: list | None = None,
         ledger_file: str | None = None,
-        dedup_items: int = 2000,
+        dedup_items: int = 200,
         trust_negative: bool = False,
         keep: bool = False,
         fresh: bool = True,
